@@ -47,6 +47,7 @@ type c11RouteCtl struct {
 	evs   [][]byte
 	metas []string // canonical text of the meta of every In call
 	ids   []pipeline.SourceID
+	nmeta []int // number of meta keys of every In call
 }
 
 func c11MetaText(m metadata.MetaData) string {
@@ -70,6 +71,7 @@ func (c *c11RouteCtl) In(id pipeline.SourceID, _ string, _ pipeline.Offsets, dat
 	c.evs = append(c.evs, append([]byte(nil), data...))
 	c.metas = append(c.metas, c11MetaText(meta)+"\x00"+meta["m_login"]+"\x00"+meta["m_ip"]+"\x00"+meta["m_q"])
 	c.ids = append(c.ids, id)
+	c.nmeta = append(c.nmeta, len(meta))
 	c.mu.Unlock()
 	return 1
 }
@@ -102,9 +104,10 @@ func c11StartPlugin(ctl pipeline.InputPluginController, logger *zap.Logger, set 
 	return p
 }
 
-func c11ExecRouted(cs hx.Sx) hx.Sx {
-	top := hx.Items(cs)
-	cf := hx.Items(top[0])
+// c11RoutePlugin starts a plugin with the cfg of a routed case; tmpls = nil: the three fixed meta templates of which = 9
+// (when the cfg asks for meta), otherwise the given ones
+func c11RoutePlugin(cfsx hx.Sx, tmpls cfg.MetaTemplates) (*httpin.Plugin, *c11RouteCtl) {
+	cf := hx.Items(cfsx)
 	mode, strat, hdr := hx.Int(cf[0]), hx.Int(cf[1]), hx.Str(cf[2])
 	secrets := map[string]string{}
 	for _, s := range hx.Items(cf[3]) {
@@ -127,7 +130,10 @@ func c11ExecRouted(cs hx.Sx) hx.Sx {
 			c.CORS.AllowedHeaders = []string{"Content-Type", "X-Api-Key"}
 			c.CORS.ExposedHeaders = []string{"X-Elastic-Product"}
 		}
-		if meta {
+		switch {
+		case tmpls != nil:
+			c.Meta = tmpls
+		case meta:
 			c.Meta = cfg.MetaTemplates{
 				"m_login": "{{ .login }}",
 				"m_ip":    "{{ .remote_addr }}",
@@ -135,104 +141,124 @@ func c11ExecRouted(cs hx.Sx) hx.Sx {
 			}
 		}
 	})
+	return p, ctl
+}
+
+func c11ExecRouted(cs hx.Sx) hx.Sx {
+	top := hx.Items(cs)
+	p, ctl := c11RoutePlugin(top[0], nil)
 	var out []hx.Sx
 	for _, rq := range hx.Items(top[1]) {
-		it := hx.Items(rq)
-		method := c11Methods[hx.Int(it[0])]
-		target := hx.Str(it[1])
-		if q := hx.Str(it[6]); q != "" {
-			target += "?q=" + url.QueryEscape(q)
-		}
-		req := httptest.NewRequest(method, target, nil)
-		hsel := hx.Str(it[2])
-		if cr := it[3]; hx.IsList(cr) && hsel != "" {
-			ci := hx.Items(cr)
-			switch hx.Int(ci[0]) {
-			case 1:
-				req.Header.Set(hsel, "Basic "+base64.StdEncoding.EncodeToString([]byte(hx.Str(ci[1])+":"+hx.Str(ci[2]))))
-			case 2:
-				req.Header.Set(hsel, "Bearer "+hx.Str(ci[1]))
-			case 3:
-				req.Header.Set(hsel, hx.Str(ci[1]))
-			}
-		}
-		if o := hx.Str(it[4]); o != "" {
-			req.Header.Set("Origin", o)
-		}
-		ips := hx.Items(it[5])
-		for i, h := range []string{"CF-Connecting-IP", "X-Forwarded-For", "X-Real-IP"} {
-			if v := hx.Str(hx.Items(ips[i])[0]); v != "" {
-				req.Header.Set(h, v)
-			}
-		}
-		req.RemoteAddr = hx.Str(hx.Items(ips[3])[0])
-		reads := c11Reads(it[8])
-		gz := hx.Int(it[7]) == 1
-		if gz {
-			req.Header.Set("Content-Encoding", "gzip")
-			req.Body = io.NopCloser(bytes.NewReader(c11Gz(reads)))
-		} else {
-			req.Body = &c11Body{reads: reads}
-		}
-		ctl.mu.Lock()
-		ctl.evs, ctl.metas, ctl.ids = nil, nil, nil
-		ctl.mu.Unlock()
-		rec := httptest.NewRecorder()
-		code := func() (code int) {
-			defer func() {
-				if recover() != nil {
-					code = -1
-				}
-			}()
-			p.ServeHTTP(rec, req)
-			return rec.Code
-		}()
-		class := 0
-		if code == 200 {
-			b := rec.Body.Bytes()
-			switch {
-			case bytes.Contains(b, []byte(`"took"`)):
-				class = 1
-			case bytes.Contains(b, []byte(`"cluster_name"`)):
-				class = 2
-			case bytes.Contains(b, []byte(`"features"`)):
-				class = 3
-			case bytes.Contains(b, []byte(`"license"`)):
-				class = 4
-			case bytes.Equal(bytes.TrimSpace(b), []byte("{}")):
-				class = 5
-			case len(b) != 0:
-				class = 9
-			}
-		}
-		ctl.mu.Lock()
-		evs := ctl.evs
-		for j := 1; j < len(ctl.ids); j++ {
-			if ctl.ids[j] != ctl.ids[0] {
-				evs = append(evs, []byte("MIXED-SOURCE-IDS"))
-				break
-			}
-		}
+		evs, code, class, ao, metas, _ := c11RouteServe(p, ctl, c11RouteBuild(rq))
 		var ms []hx.Sx
-		if len(ctl.metas) > 0 && !strings.HasPrefix(ctl.metas[0], "\x00") {
-			f := strings.Split(ctl.metas[0], "\x00")
+		if len(metas) > 0 && !strings.HasPrefix(metas[0], "\x00") {
+			f := strings.Split(metas[0], "\x00")
 			ms = []hx.Sx{hx.S(f[1]), hx.S(f[2]), hx.S(f[3])}
-			for _, m := range ctl.metas[1:] {
-				if m != ctl.metas[0] {
+			for _, m := range metas[1:] {
+				if m != metas[0] {
 					ms = append(ms, hx.S("MIXED-META"))
 					break
 				}
 			}
 		}
-		ctl.mu.Unlock()
-		// the two remaining entry points of the input plugin interface: every event passes, Commit is a no-op
-		if !p.PassEvent(nil) {
-			evs = append(evs, []byte("PASSEVENT-FALSE"))
-		}
-		p.Commit(nil)
-		out = append(out, hx.L(hx.Bs(evs), hx.I(code), hx.I(class), hx.S(rec.Header().Get("Access-Control-Allow-Origin")), hx.L(ms...)))
+		out = append(out, hx.L(hx.Bs(evs), hx.I(code), hx.I(class), hx.S(ao), hx.L(ms...)))
 	}
 	return hx.L(out...)
+}
+
+// c11RouteBuild makes the HTTP request of one routed request of a case (format in the head of this file)
+func c11RouteBuild(rq hx.Sx) *http.Request {
+	it := hx.Items(rq)
+	method := c11Methods[hx.Int(it[0])]
+	target := hx.Str(it[1])
+	if q := hx.Str(it[6]); q != "" {
+		target += "?q=" + url.QueryEscape(q)
+	}
+	req := httptest.NewRequest(method, target, nil)
+	hsel := hx.Str(it[2])
+	if cr := it[3]; hx.IsList(cr) && hsel != "" {
+		ci := hx.Items(cr)
+		switch hx.Int(ci[0]) {
+		case 1:
+			req.Header.Set(hsel, "Basic "+base64.StdEncoding.EncodeToString([]byte(hx.Str(ci[1])+":"+hx.Str(ci[2]))))
+		case 2:
+			req.Header.Set(hsel, "Bearer "+hx.Str(ci[1]))
+		case 3:
+			req.Header.Set(hsel, hx.Str(ci[1]))
+		}
+	}
+	if o := hx.Str(it[4]); o != "" {
+		req.Header.Set("Origin", o)
+	}
+	ips := hx.Items(it[5])
+	for i, h := range []string{"CF-Connecting-IP", "X-Forwarded-For", "X-Real-IP"} {
+		if v := hx.Str(hx.Items(ips[i])[0]); v != "" {
+			req.Header.Set(h, v)
+		}
+	}
+	req.RemoteAddr = hx.Str(hx.Items(ips[3])[0])
+	reads := c11Reads(it[8])
+	gz := hx.Int(it[7]) == 1
+	if gz {
+		req.Header.Set("Content-Encoding", "gzip")
+		req.Body = io.NopCloser(bytes.NewReader(c11Gz(reads)))
+	} else {
+		req.Body = &c11Body{reads: reads}
+	}
+	return req
+}
+
+// c11RouteServe hands the request to the real ServeHTTP and collects what the controller was given for it: the events,
+// the status (-1 = the handler panicked), the class of the canned answer, the Access-Control-Allow-Origin header, the
+// canonical meta text and the number of meta keys of every In call
+func c11RouteServe(p *httpin.Plugin, ctl *c11RouteCtl, req *http.Request) ([][]byte, int, int, string, []string, []int) {
+	ctl.mu.Lock()
+	ctl.evs, ctl.metas, ctl.ids, ctl.nmeta = nil, nil, nil, nil
+	ctl.mu.Unlock()
+	rec := httptest.NewRecorder()
+	code := func() (code int) {
+		defer func() {
+			if recover() != nil {
+				code = -1
+			}
+		}()
+		p.ServeHTTP(rec, req)
+		return rec.Code
+	}()
+	class := 0
+	if code == 200 {
+		b := rec.Body.Bytes()
+		switch {
+		case bytes.Contains(b, []byte(`"took"`)):
+			class = 1
+		case bytes.Contains(b, []byte(`"cluster_name"`)):
+			class = 2
+		case bytes.Contains(b, []byte(`"features"`)):
+			class = 3
+		case bytes.Contains(b, []byte(`"license"`)):
+			class = 4
+		case bytes.Equal(bytes.TrimSpace(b), []byte("{}")):
+			class = 5
+		case len(b) != 0:
+			class = 9
+		}
+	}
+	ctl.mu.Lock()
+	evs := ctl.evs
+	for j := 1; j < len(ctl.ids); j++ {
+		if ctl.ids[j] != ctl.ids[0] {
+			evs = append(evs, []byte("MIXED-SOURCE-IDS"))
+			break
+		}
+	}
+	metas, nmeta := ctl.metas, ctl.nmeta
+	ctl.mu.Unlock()
+	// the two remaining entry points of the input plugin interface: every event passes, Commit is a no-op
+	if !p.PassEvent(nil) {
+		evs = append(evs, []byte("PASSEVENT-FALSE"))
+	}
+	p.Commit(nil)
+	return evs, code, class, rec.Header().Get("Access-Control-Allow-Origin"), metas, nmeta
 }
 
 // ---- generators -----------------------------------------------------------------------------------------------------
@@ -312,53 +338,127 @@ func c11IPOracle(c *hmain.Ctx) {
 	c.W.Oracle("net.ParseIP accepts exactly the candidates flagged valid (and prints them back unchanged)", ok, "ip candidate tables of routed.go")
 }
 
+var (
+	c11NoIP  = [2]string{"", "0"}
+	c11HSels = []string{"Authorization", "X-Api-Key"}
+)
+
+// a small body in 1-3 reads; plain bodies sometimes with a read error
+func c11RBody(r *hx.Rng) (int, []hx.Sx) {
+	var b []byte
+	for i := r.Intn(4); i > 0; i-- {
+		for k := r.Intn(5); k > 0; k-- {
+			b = append(b, "abc{}\r"[r.Intn(6)])
+		}
+		if i > 1 || r.Chance(2, 3) {
+			b = append(b, '\n')
+		}
+	}
+	return c11RSplit(r, b)
+}
+
+func c11RSplit(r *hx.Rng, b []byte) (int, []hx.Sx) {
+	gz := 0
+	if r.Chance(1, 5) {
+		gz = 1
+	}
+	var reads []hx.Sx
+	for len(b) > 0 {
+		k := 1 + r.Intn(len(b))
+		reads = append(reads, hx.B(b[:k]))
+		b = b[k:]
+		if gz == 0 && r.Chance(1, 12) {
+			reads = append(reads, hx.I(0))
+			break
+		}
+	}
+	return gz, reads
+}
+
+// every credential shape for the secrets of cf
+func c11RCreds(cf c11RCfg) []hx.Sx {
+	out := []hx.Sx{hx.I(0)}
+	users := [][2]string{{"nobody", ""}, {"nobody", "x"}, {"", ""}}
+	for _, s := range cf.secrets {
+		users = append(users, [2]string{s[0], s[1]}, [2]string{s[0], s[1] + "x"}, [2]string{s[0], ""}, [2]string{s[1], s[0]})
+	}
+	for _, u := range users {
+		if !strings.Contains(u[0], ":") {
+			out = append(out, hx.L(hx.I(1), hx.S(u[0]), hx.S(u[1])))
+		}
+		out = append(out, hx.L(hx.I(2), hx.S(u[1])), hx.L(hx.I(2), hx.S(u[0])))
+		out = append(out, hx.L(hx.I(3), hx.S("bearer "+u[1])), hx.L(hx.I(3), hx.S("Bearer  "+u[1])), hx.L(hx.I(3), hx.S("Bearer"+u[1])), hx.L(hx.I(3), hx.S(u[1])))
+	}
+	return out
+}
+
+// c11RandRoute: a random configuration and a history of 3-8 requests for it (route-random, hdr-random); ingest = at least
+// one of them is a POST on the bulk route of the mode
+func c11RandRoute(r *hx.Rng) (c11RCfg, []c11RReq, bool) {
+	hsels, noIP := c11HSels, c11NoIP
+	body := func() (int, []hx.Sx) { return c11RBody(r) }
+	creds := c11RCreds
+	cf := c11RCfg{mode: r.Intn(2), strat: r.Intn(3), hdr: hx.Pick(r, hsels), hdrs: r.Intn(2), meta: r.Intn(2)}
+	names := []string{"alice", "bob", "svc", "x", ""}
+	vals := []string{"pw1", "tok-2", "s3cr3t", "", "a:b"}
+	perm := r.Intn(len(vals))
+	for k := r.Intn(4); k > 0; k-- {
+		cf.secrets = append(cf.secrets, [2]string{names[k], vals[(k+perm)%len(vals)]})
+	}
+	for k := r.Intn(3); k > 0; k-- {
+		cf.origins = append(cf.origins, hx.Pick(r, c11OriginPat))
+	}
+	cs := creds(cf)
+	var reqs []c11RReq
+	ingest := false
+	for k := r.Range(3, 8); k > 0; k-- {
+		gz, reads := body()
+		rq := c11RReq{method: 0, path: hx.Pick(r, c11Paths), hsel: cf.hdr, cred: hx.Pick(r, cs), origin: hx.Pick(r, c11Origins),
+			q: hx.Pick(r, []string{"", "", "v", "a b&c=d", "ü"}), gz: gz, reads: reads}
+		if r.Chance(1, 4) {
+			rq.method = r.Intn(len(c11Methods))
+		}
+		if r.Chance(1, 2) {
+			rq.path = hx.Pick(r, []string{"/", "/_bulk"})
+		}
+		if r.Chance(1, 6) {
+			rq.hsel = hx.Pick(r, hsels)
+		}
+		if len(cf.secrets) > 0 && r.Chance(1, 2) {
+			s := hx.Pick(r, cf.secrets)
+			if cf.strat == 2 {
+				rq.cred = hx.L(hx.I(2), hx.S(s[1]))
+			} else if !strings.Contains(s[0], ":") {
+				rq.cred = hx.L(hx.I(1), hx.S(s[0]), hx.S(s[1]))
+			}
+		}
+		for j := 0; j < 3; j++ {
+			rq.ips[j] = noIP
+			if r.Chance(1, 4) {
+				rq.ips[j] = [2]string{hx.Pick(r, c11IPsGood), "1"}
+			} else if r.Chance(1, 8) {
+				rq.ips[j] = [2]string{hx.Pick(r, c11IPsBad), "0"}
+			}
+		}
+		rq.ips[3] = [2]string{hx.Pick(r, c11RemGood), "1"}
+		if r.Chance(1, 5) {
+			rq.ips[3] = [2]string{hx.Pick(r, c11RemBad), "0"}
+		}
+		if rq.method == 0 && (cf.mode == 0 || rq.path == "/_bulk") {
+			ingest = true
+		}
+		reqs = append(reqs, rq)
+	}
+	return cf, reqs, ingest
+}
+
 func c11GenRouted(c *hmain.Ctx) {
 	r := c.R
 	c11IPOracle(c)
-	noIP := [2]string{"", "0"}
-	body := func() (int, []hx.Sx) {
-		// a small body in 1-3 reads; plain bodies sometimes with a read error
-		var b []byte
-		for i := r.Intn(4); i > 0; i-- {
-			for k := r.Intn(5); k > 0; k-- {
-				b = append(b, "abc{}\r"[r.Intn(6)])
-			}
-			if i > 1 || r.Chance(2, 3) {
-				b = append(b, '\n')
-			}
-		}
-		gz := 0
-		if r.Chance(1, 5) {
-			gz = 1
-		}
-		var reads []hx.Sx
-		for len(b) > 0 {
-			k := 1 + r.Intn(len(b))
-			reads = append(reads, hx.B(b[:k]))
-			b = b[k:]
-			if gz == 0 && r.Chance(1, 12) {
-				reads = append(reads, hx.I(0))
-				break
-			}
-		}
-		return gz, reads
-	}
-	creds := func(cf c11RCfg) []hx.Sx {
-		out := []hx.Sx{hx.I(0)}
-		users := [][2]string{{"nobody", ""}, {"nobody", "x"}, {"", ""}}
-		for _, s := range cf.secrets {
-			users = append(users, [2]string{s[0], s[1]}, [2]string{s[0], s[1] + "x"}, [2]string{s[0], ""}, [2]string{s[1], s[0]})
-		}
-		for _, u := range users {
-			if !strings.Contains(u[0], ":") {
-				out = append(out, hx.L(hx.I(1), hx.S(u[0]), hx.S(u[1])))
-			}
-			out = append(out, hx.L(hx.I(2), hx.S(u[1])), hx.L(hx.I(2), hx.S(u[0])))
-			out = append(out, hx.L(hx.I(3), hx.S("bearer "+u[1])), hx.L(hx.I(3), hx.S("Bearer  "+u[1])), hx.L(hx.I(3), hx.S("Bearer"+u[1])), hx.L(hx.I(3), hx.S(u[1])))
-		}
-		return out
-	}
-	hsels := []string{"Authorization", "X-Api-Key"}
+	noIP := c11NoIP
+	body := func() (int, []hx.Sx) { return c11RBody(r) }
+	creds := c11RCreds
+	hsels := c11HSels
 
 	// ---- route-small: every (mode, strategy, auth header) x every path x every method, with good and bad credentials ----
 	for mode := 0; mode <= 1; mode++ {
@@ -429,55 +529,9 @@ func c11GenRouted(c *hmain.Ctx) {
 
 	// ---- route-random -------------------------------------------------------------------------------------------------------
 	for i := 0; i < 150*c.Scale; i++ {
-		cf := c11RCfg{mode: r.Intn(2), strat: r.Intn(3), hdr: hx.Pick(r, hsels), hdrs: r.Intn(2), meta: r.Intn(2)}
-		names := []string{"alice", "bob", "svc", "x", ""}
-		vals := []string{"pw1", "tok-2", "s3cr3t", "", "a:b"}
-		perm := r.Intn(len(vals))
-		for k := r.Intn(4); k > 0; k-- {
-			cf.secrets = append(cf.secrets, [2]string{names[k], vals[(k+perm)%len(vals)]})
-		}
-		for k := r.Intn(3); k > 0; k-- {
-			cf.origins = append(cf.origins, hx.Pick(r, c11OriginPat))
-		}
-		cs := creds(cf)
+		cf, rqs, ingest := c11RandRoute(r)
 		var reqs []hx.Sx
-		ingest := false
-		for k := r.Range(3, 8); k > 0; k-- {
-			gz, reads := body()
-			rq := c11RReq{method: 0, path: hx.Pick(r, c11Paths), hsel: cf.hdr, cred: hx.Pick(r, cs), origin: hx.Pick(r, c11Origins),
-				q: hx.Pick(r, []string{"", "", "v", "a b&c=d", "ü"}), gz: gz, reads: reads}
-			if r.Chance(1, 4) {
-				rq.method = r.Intn(len(c11Methods))
-			}
-			if r.Chance(1, 2) {
-				rq.path = hx.Pick(r, []string{"/", "/_bulk"})
-			}
-			if r.Chance(1, 6) {
-				rq.hsel = hx.Pick(r, hsels)
-			}
-			if len(cf.secrets) > 0 && r.Chance(1, 2) {
-				s := hx.Pick(r, cf.secrets)
-				if cf.strat == 2 {
-					rq.cred = hx.L(hx.I(2), hx.S(s[1]))
-				} else if !strings.Contains(s[0], ":") {
-					rq.cred = hx.L(hx.I(1), hx.S(s[0]), hx.S(s[1]))
-				}
-			}
-			for j := 0; j < 3; j++ {
-				rq.ips[j] = noIP
-				if r.Chance(1, 4) {
-					rq.ips[j] = [2]string{hx.Pick(r, c11IPsGood), "1"}
-				} else if r.Chance(1, 8) {
-					rq.ips[j] = [2]string{hx.Pick(r, c11IPsBad), "0"}
-				}
-			}
-			rq.ips[3] = [2]string{hx.Pick(r, c11RemGood), "1"}
-			if r.Chance(1, 5) {
-				rq.ips[3] = [2]string{hx.Pick(r, c11RemBad), "0"}
-			}
-			if rq.method == 0 && (cf.mode == 0 || rq.path == "/_bulk") {
-				ingest = true
-			}
+		for _, rq := range rqs {
 			reqs = append(reqs, rq.sx())
 		}
 		c.W.Count(fmt.Sprintf("route_mode_%d_strategy_%d", cf.mode, cf.strat))
